@@ -16,16 +16,21 @@ class C19(Property):
         "distance is the very product progress * dist), empty_path_default, interpolate_idx_zero, interpolate_beyond_last, "
         "interpolate_total / positionAt_total (no index read can panic on a curve), bsLoop_inv / bs_probe_in_range / idxOfDist_le "
         "(every get_unchecked probe of the search is in range; the result is in 0..=len), bsLoop_fuel, interpolate_degenerate, "
-        "interpolate_formula, position_first_of_idx_zero. No exact-arithmetic (law-dependent) theorem is proved for C19. Model tied to the code bit-for-bit "
+        "interpolate_formula, position_first_of_idx_zero. Exact-arithmetic part (explicit hypotheses PosLaws, shown satisfiable on Rat by posLaws_rat): "
+        "idxOfDist_hit / bsLoop_hit (on strictly increasing lengths std's probing sequence returns the index of an exact hit), interpolate_at_vertex, "
+        "position_at_vertex, position_at_zero_first, position_at_one_last, progressToDist_zero_one - for curves whose lengths strictly increase by more "
+        "than EPSILON (otherwise the code deliberately returns the segment start). position_lipschitz stays a statement (position_lipschitz_statement). Model tied to the code bit-for-bit "
         "(positions, distances, indices, also for NaN / unsorted lengths).")
     technique = "Lean 4 proof (generic arithmetic, structural) + bit-exact differential correspondence + independent oracle"
     required_theorems = ["progress_clamped", "progress_below_clamped", "progress_above_clamped", "position_clamped",
                          "progress_to_dist_linear", "empty_path_default", "interpolate_idx_zero", "interpolate_beyond_last",
                          "interpolate_total", "positionAt_total", "bsLoop_inv", "bs_probe_in_range", "idxOfDist_le", "bsLoop_fuel",
-                         "interpolate_degenerate", "interpolate_formula", "position_first_of_idx_zero"]
+                         "interpolate_degenerate", "interpolate_formula", "position_first_of_idx_zero",
+                         "bsLoop_hit", "idxOfDist_hit", "interpolate_at_vertex", "position_at_vertex", "progressToDist_zero_one",
+                         "position_at_zero_first", "position_at_one_last", "posLaws_rat"]
     partial_theorems = {
-        "position_at_zero_first / position_at_one_last / position_at_vertex": "not proved in general: they need 0*dist = 0, 1*dist = dist, (d1-d0)/(d1-d0) = 1 and the search landing on the right index, i.e. arithmetic laws plus sortedness; proved pieces: position_first_of_idx_zero, interpolate_formula, interpolate_degenerate; tested by the oracle",
-        "position_lipschitz": "NOT proved (needs the curve invariant |path[i]-path[i-1]| <= len[i]-len[i-1] and norm laws); tested by the oracle with float slack",
+        "position_at_zero_first / position_at_one_last / position_at_vertex": "proved in exact arithmetic only (PosLaws: lt irreflexive/asymmetric, 0*x=0, 1*x=x, (b-a)/(b-a)=1 for a<b, x*1=x, a+(b-a)=b; instantiated on Rat) and for strictly increasing lengths with consecutive differences above EPSILON; with zero-length segments the position is the start of a coincident run (tested), in IEEE the equalities hold within 1e-6*scale (tested)",
+        "position_lipschitz": "NOT proved: position_lipschitz_statement (needs the triangle inequality of the plane and monotone interpolation); tested by the oracle with float slack",
     }
     trusted_base = [
         "Lean 4.33.0 kernel",
